@@ -1196,6 +1196,21 @@ def rule_path_text_tokenised(ctx):
                     if b is not None and isinstance(b.value, ast.Call) and b.value.args and isinstance(b.value.args[0], ast.Constant) \
                             and "'" in str(b.value.args[0].value):
                         tok = True
+    # the groups of the quoted-step tokeniser go where they belong: group 1 (the key) becomes the NAME of the component, group 2
+    # (the index) its index -- read from the constructor calls in the branch that matched the expression
+    cf = prog.func("stix2.patterns::_ObjectPathComponent.create_ObjectPathComponent")
+    fl = flow_of(cf)
+    for c in body_walk(cf.node):
+        if isinstance(c, ast.Call) and call_simple_name(c) == "ListObjectPathComponent" and len(c.args) == 2:
+            pr0, pr1 = fl.prov(c.args[0]), fl.prov(c.args[1])
+            if "group" not in (pr0.calls | pr1.calls):
+                continue
+            ok = 1 in pr0.consts and 2 not in pr0.consts and 2 in pr1.consts and 1 not in pr1.consts
+            run.check(ok, R, key(cf.module.relpath, cf.qualname, "groups-of-the-quoted-step"),
+                      "the key and the index of a quoted path step ('key'[index]) do not reach the list component as (name from "
+                      "group 1, index from group 2): the component prints another key / index than the text had",
+                      file=cf.module.relpath, line=c.lineno, function=cf.qualname,
+                      expected="ListObjectPathComponent(<unescaped m.group(1)>, m.group(2))", found=short(c, 80))
     run.check(tok or sites > 0, R, key("stix2/patterns.py", "ObjectPath.make_object_path", "tokeniser"),
               "path text is neither cut by string methods nor by a quote-aware regular expression: the rule lost its subject",
               file="stix2/patterns.py", line=prog.func("stix2.patterns::ObjectPath.make_object_path").node.lineno,
